@@ -24,21 +24,20 @@ Definition s0_val (h : nat -> R) (tk : R) : R :=
   let x := Q2R (1 # 1) / (tk / Q2R tcriticalk_Q) in
   h 0%nat * Q2R (1 # 1) + h 1%nat * x + h 2%nat * (x * x) + h 3%nat * (x * x * x).
 
-Definition visc_env (h : nat -> R) (d t : R) : list R := evalR (fun i => nth i [d; t] 0) h visc_nodes.
+Notation visc_env h d t :=
+  (eval_nodes 0 (fun q _ => Q2R q) Rplus Rminus Rmult Rdiv Ropp sqrt exp (fun i => nth i [d; t] 0) h [] visc_nodes).
 
 Lemma visc_env_tk h d t : nth pos_tk (visc_env h d t) 0 = t + Q2R tc_k_Q.
 Proof.
-  unfold visc_env.
   change visc_nodes with (firstn 4 visc_nodes ++ skipn 4 visc_nodes).
-  unfold evalR. rewrite eval_nodes_app.
+  rewrite eval_nodes_app.
   change pos_tk with (length (skipn 4 visc_nodes) + 0)%nat. rewrite ev_old. reflexivity.
 Qed.
 
 Lemma visc_env_s0 h d t : nth pos_s0 (visc_env h d t) 0 = s0_val h (t + Q2R tc_k_Q).
 Proof.
-  unfold visc_env.
   change visc_nodes with (firstn 42 visc_nodes ++ skipn 42 visc_nodes).
-  unfold evalR. rewrite eval_nodes_app.
+  rewrite eval_nodes_app.
   change pos_s0 with (length (skipn 42 visc_nodes) + 0)%nat. rewrite ev_old.
   cbv [firstn visc_nodes eval_nodes eval_node get nth s0_val tc_k_Q tcriticalk_Q]. reflexivity.
 Qed.
@@ -51,11 +50,15 @@ Theorem visc_positive_if (h : nat -> R) (d t v : R) :
   0 < t + Q2R tc_k_Q -> 0 < s0_val h (t + Q2R tc_k_Q) ->
   runsR visc_traced [d; t] h (RRet [v]) -> 0 < v.
 Proof.
-  intros Htk Hs0 [[_ E]|[]]. cbv [visc_traced p_out outR map] in E. injection E as E. subst v.
-  apply (sign_sound [pos_tk; pos_s0] (fun i => nth i [d; t] 0) h visc_nodes); [|exact visc_sign_check].
-  intros pos [<-|[<-|[]]].
-  - fold (evalR (fun i => nth i [d; t] 0) h visc_nodes). fold (visc_env h d t). rewrite visc_env_tk. exact Htk.
-  - fold (evalR (fun i => nth i [d; t] 0) h visc_nodes). fold (visc_env h d t). rewrite visc_env_s0. exact Hs0.
+  intros Htk Hs0 H.
+  unfold runsR, envR, evalR in H. change (t_nodes visc_traced) with visc_nodes in H.
+  pose proof (sign_sound [pos_tk; pos_s0] (fun i => nth i [d; t] 0) h visc_nodes) as S.
+  pose proof (visc_env_tk h d t) as Etk. pose proof (visc_env_s0 h d t) as Es0.
+  set (env := visc_env h d t) in *. clearbody env.
+  cbv [visc_traced t_paths some_pathR p_conds condsR p_out outR map] in H.
+  destruct H as [[_ E]|[]]. injection E as E. subst v.
+  apply S; [|exact visc_sign_check].
+  intros pos [<-|[<-|[]]]; [rewrite Etk; exact Htk|rewrite Es0; exact Hs0].
 Qed.
 
 (** the coefficients of the source: h0v ++ h1v *)
